@@ -523,6 +523,28 @@ static void views_over_unshared_inputs(void) {
   }
 }
 
+/* ---------- a root object referenced from static storage only ----------
+** What new_root is for: the pointer lives where no collector looks (a static variable).  While it is registered the
+** registry grows and shrinks (many live objects, then a lot of garbage); the object is still there afterwards. */
+static var static_root;
+static void __attribute__((noinline)) make_static_root(int n) {
+  static_root = new_root(Array, Int);
+  for (int i = 0; i < n; i++) { push(static_root, $I(i * 10 + 7)); }
+}
+static void root_in_static_storage(void) {
+  int n = 3 + (int)below(6);
+  make_static_root(n);
+  scrub_stack();
+  var live[64];
+  for (int i = 0; i < 64; i++) { live[i] = new(Int, $I(i)); }
+  churn_garbage(400 + (int)below(400));
+  int64_t s = 0; for (int i = 0; i < 64; i++) { s += c_int(live[i]); }
+  churn_garbage(300);
+  int64_t t = 0; foreach (x in static_root) { t += c_int(x); }
+  OUT("root kept in static storage: %zu items, sum %" PRId64 ", live sum %" PRId64, len(static_root), t, s);
+  del_root(static_root); static_root = NULL;
+}
+
 static void files(const char* dir_tag) {
   char path[128]; snprintf(path, sizeof path, "c18-%s.tmp", dir_tag);
   var f = new(File, $S(path), $S("w+"));
@@ -550,7 +572,7 @@ int main(int argc, char** argv) {
   int rounds = 3 + (int)below(3);
   for (int i = 0; i < rounds; i++) {
     OUT("--- round %d", i);
-    sequences(); maps(); strings_and_formats(); exceptions(); values_and_types(); user_types(); embedded_strings(); thread_storage(); pooled_objects(); owners_left_to_the_collector(); views_over_unshared_inputs(); files(tag);
+    sequences(); maps(); strings_and_formats(); exceptions(); values_and_types(); user_types(); embedded_strings(); thread_storage(); pooled_objects(); owners_left_to_the_collector(); views_over_unshared_inputs(); root_in_static_storage(); files(tag);
   }
   OUT("done");
   return 0;
